@@ -4,7 +4,7 @@ from __future__ import annotations
 
 import ast
 
-from engine.core import AnalysisError, Repo, is_raise_of, norm, walk_no_nested
+from engine.core import AnalysisError, Repo, is_raise_of, kwarg_of, norm, walk_no_nested
 from engine.flow import enum_paths, path_calls, path_facts
 from engine.mutate import Mutant
 from engine.report import Result
@@ -170,7 +170,7 @@ def mismatch_nest(repo, res, a):
 
 
 def eq_ne(repo, res, a):
-    r3 = res.rule("C01-R3", "== / != sibling agreement: all-False for ==, all-True for != on unit errors", floor=4)
+    r3 = res.rule("C01-R3", "== / != sibling agreement: all-False for ==, all-True for != on unit errors, in the broadcast shape of both operands", floor=5)
     mod = repo.mod(ARR)
     for meth, fam, sup in (("__eq__", "zeros", "__eq__"), ("__ne__", "ones", "__ne__")):
         fn = mod.func(f"unyt_array.{meth}")
@@ -191,18 +191,31 @@ def eq_ne(repo, res, a):
         res.check(ok, meth, fn.where(), f"{meth} must delegate to ndarray.{sup} and answer np.{fam}(self.shape, bool) exactly on unit errors", found=found, rid=r3)
     # early return inside the ufunc
     fn = a.fn
-    er = [n for n in ast.walk(a.dim_if) if isinstance(n, ast.If) and norm(n.test) == "ufunc is equal"]
-    ok = len(er) == 1 and norm(er[0].body[0]) == "func = np.zeros_like" and norm(er[0].orelse[0]) == "func = np.ones_like"
-    res.check(ok, "early-return-polarity", fn.where(er[0]) if er else fn.where(), "equal -> zeros_like, not_equal -> ones_like", rid=r3)
+    er = [n for n in ast.walk(a.dim_if) if isinstance(n, ast.If) and norm(n.test) in ("ufunc is equal", "ufunc is not_equal")]
+    ZEROS, ONES = ("np.zeros", "np.zeros_like"), ("np.ones", "np.ones_like")
+    ok = False
+    if len(er) == 1 and len(er[0].body) == 1 and len(er[0].orelse) == 1 and all(isinstance(x, ast.Assign) for x in (er[0].body[0], er[0].orelse[0])):
+        t_, f_ = norm(er[0].body[0].value), norm(er[0].orelse[0].value)
+        if norm(er[0].test) == "ufunc is not_equal":
+            t_, f_ = f_, t_
+        ok = t_ in ZEROS and f_ in ONES and norm(er[0].body[0].targets[0]) == norm(er[0].orelse[0].targets[0])
+    res.check(ok, "early-return-polarity", fn.where(er[0]) if er else fn.where(), "equal -> all False (zeros family), not_equal -> all True (ones family)", rid=r3)
+    maker = norm(er[0].body[0].targets[0]) if ok else "func"
     # (that a value is returned only for == / != is C01-R2; here: what is returned) - independent of how the branch is
     # laid out: every return inside the dimension-mismatch nest hands back `ret`, which is built once by the chosen
-    # zeros_like / ones_like and afterwards only converted with bool()
+    # zeros / ones maker with dtype=bool and afterwards only converted with bool()
     rets = [n for n in ast.walk(a.dim_if) if isinstance(n, ast.Return)]
     mk = [n for n in ast.walk(a.dim_if) if isinstance(n, ast.Assign) and norm(n.targets[0]) == "ret"]
-    build = [m_ for m_ in mk if norm(m_.value) == "func(np.asarray(inp1), dtype=bool)"]
+    build = [m_ for m_ in mk if isinstance(m_.value, ast.Call) and norm(m_.value.func) == maker and kwarg_of(m_.value, "dtype") is not None and norm(kwarg_of(m_.value, "dtype")) in ("bool", "'bool'", "np.bool_")]
     other = [m_ for m_ in mk if m_ not in build and norm(m_.value) != "bool(ret)"]
     ok = len(rets) >= 1 and all(r_.value is not None and norm(r_.value) == "ret" for r_ in rets) and len(build) == 1 and not other
-    res.check(ok, "early-return-value", fn.where(), "the early return is a boolean array built by zeros_like/ones_like", rid=r3)
+    res.check(ok, "early-return-value", fn.where(), "the early return is a boolean array built by the zeros / ones maker", rid=r3)
+    # ... of the shape NumPy's == gives: the broadcast of BOTH operands (np.equal(a3_km, 3*s) is three answers, not one)
+    if build:
+        arg0 = build[0].value.args[0] if build[0].value.args else None
+        names_ = {x.id for x in ast.walk(arg0) if isinstance(x, ast.Name)} if arg0 is not None else set()
+        both = bool(names_ & {"inp0", "i0"}) and bool(names_ & {"inp1", "i1"})
+        res.check(both, "early-return-shape", fn.where(build[0]), "the all-False / all-True answer has the broadcast shape of both operands: built from one operand only, np.equal(array_km, quantity_s) answers a single False and np.equal(quantity_km, array_s) an array of another shape than NumPy's", "shape from inp0 and inp1 (np.broadcast(inp0, inp1).shape)", norm(arg0) if arg0 is not None else None, rid=r3)
 
 
 def merging_handlers(repo, res):
@@ -430,7 +443,8 @@ MUTANTS = [
     Mutant("comparison-any-mismatch", ARR, "unyt_array.__array_ufunc__", "                            elif u1.is_dimensionless:\n                                u1 = u0\n", "                            elif u1.is_dimensionless or True:\n                                u1 = u0\n", ("C01-R2",)),
     Mutant("zero-rule-widened", ARR, "unyt_array.__array_ufunc__", "                        if np.count_nonzero(i0) == 0:", "                        if np.count_nonzero(i0) >= 0:", ("C01-R2",)),
     Mutant("eq-polarity", ARR, "unyt_array.__eq__", "np.zeros(self.shape", "np.ones(self.shape", ("C01-R3",)),
-    Mutant("early-return-polarity", ARR, "unyt_array.__array_ufunc__", "func = np.zeros_like", "func = np.ones_like", ("C01-R3",)),
+    Mutant("early-return-polarity", ARR, "unyt_array.__array_ufunc__", "func = np.zeros\n", "func = np.ones\n", ("C01-R3",)),
+    Mutant("early-return-shape-of-one-operand", ARR, "unyt_array.__array_ufunc__", "np.broadcast(inp0, inp1).shape, dtype=bool", "np.shape(inp1), dtype=bool", ("C01-R3",)),
     Mutant("where-forgets-y", AF, "where", "_validate_units_consistency((x, y))", "_validate_units_consistency((x,))", ("C01-R4",)),
     Mutant("clip-forgets-max", AF, "clip_impl", "_validate_units_consistency_v2(a.units, a_min, a_max)", "_validate_units_consistency_v2(a.units, a_min)", ("C01-R4",)),
     Mutant("validate-after", AF, "union1d", "    _validate_units_consistency((ar1, ar2))\n    return np.union1d._implementation(np.asarray(ar1), np.asarray(ar2)) * ar1.units", "    res = np.union1d._implementation(np.asarray(ar1), np.asarray(ar2)) * ar1.units\n    _validate_units_consistency((ar1, ar2))\n    return res", ("C01-R4",)),
